@@ -324,6 +324,9 @@ type adm struct {
 func (a *adm) accept(dh dns.Header) dns.MsgAcceptAction {
 	if a.sc.Yield {
 		a.k.Yield("accept", 0)
+		if a.sc.RunSeed%3 == 0 {
+			a.k.Sleep("accept.stall", time.Duration(a.sc.RunSeed%5)*time.Millisecond)
+		}
 	}
 	if a.sc.Policy == "random" {
 		switch policyOf(a.sc.PolicyKey, dh.Id, dh.Bits, dh.Qdcount, dh.Ancount, dh.Nscount, dh.Arcount) {
